@@ -17,6 +17,9 @@ type C13Case struct {
 	Kind     string      `json:"kind"` // in | containsAll | containsSome
 	// set when an embedded-Rego alternative of the same failure branch defines the message itself ($message)
 	CustomMessage string `json:"customMessage,omitempty"`
+	// set when the constraint stands next to a twin in an `and`: the same kind on the same property over a list whose values,
+	// joined by commas, read the same ("x,y" against "x", "y"); node n2 fails the twin, so both nodes are reported
+	Twin bool `json:"twin,omitempty"`
 	Profile  string      `json:"profile"`
 	Data     string      `json:"data"`
 }
@@ -43,7 +46,7 @@ func genC13(g *G, n int, out io.Writer) {
 		c.Name = "P" + g.hostile(5)
 		c.VName = "v" + g.hostile(4)
 		// message: literal pieces and 0..3 placeholders
-		vars := []string{"ex.p1", "ex.p2", "ex.missing", "nope.p1", "ex.p-1", "ex_2.p1"}
+		vars := []string{"ex.p1", "ex.p2", "ex.missing", "nope.p1", "ex.p-1", "ex_2.p1", "core.name"} // (core: a built-in alias the profile does not declare)
 		var mb strings.Builder
 		np := g.n(4)
 		for k := 0; k <= np; k++ {
@@ -58,7 +61,8 @@ func genC13(g *G, n int, out io.Writer) {
 		}
 		c.Message = mb.String()
 		v1, v2 := "val"+g.hostile(3), g.hostile(3)
-		c.Values = [][2]string{{"ex.p1", v1}, {"ex.p2", v2}, {"ex_2.p1", v1}}
+		v3 := "core" + g.hostile(2)
+		c.Values = [][2]string{{"ex.p1", v1}, {"ex.p2", v2}, {"ex_2.p1", v1}, {"core.name", v3}}
 		// list constraint on ex.p0: node n1 has a value outside the list (reported), node n2 a hostile member (not reported)
 		member := "m" + g.hostile(4)
 		c.ListVals = []string{member, "k" + g.hostile(3), g.pick([]string{"plain", "a\"b", "c\\d", "%s", "e\nf"})}
@@ -104,6 +108,18 @@ func genC13(g *G, n int, out io.Writer) {
 					w.line(3, line)
 				}
 			}
+		} else if c.Kind == "in" && g.coin(0.3) {
+			// twins: two `in` constraints on one property whose lists differ only in where a comma is a separator and where it is text
+			c.Twin = true
+			c.ListVals = append(c.ListVals, "x", "y")
+			qs = append(qs, yq("x"), yq("y"))
+			twin := append(append([]string{}, qs[:len(qs)-2]...), yq("x,y"))
+			w.line(2, "and:")
+			for _, l := range [][]string{qs, twin} {
+				w.line(3, "- propertyConstraints:")
+				w.line(5, "ex.p0:")
+				w.line(6, "in: ["+strings.Join(l, ", ")+"]")
+			}
 		} else {
 			w.line(2, "propertyConstraints:")
 			w.line(3, "ex.p0:")
@@ -111,10 +127,10 @@ func genC13(g *G, n int, out io.Writer) {
 		}
 		c.Profile = w.b.String()
 		gr := Graph{
-			{Id: nodeId(1), Types: []string{NS + "T"}, Props: []Prop{{NS + "p0", []Val{VS("outside")}}, {NS + "p1", []Val{VS(v1)}}, {NS + "p2", []Val{VS(v2)}}}},
+			{Id: nodeId(1), Types: []string{NS + "T"}, Props: []Prop{{NS + "p0", []Val{VS("outside")}}, {NS + "p1", []Val{VS(v1)}}, {NS + "p2", []Val{VS(v2)}}, {AmlCoreNS + "name", []Val{VS(v3)}}}},
 			{Id: nodeId(2), Types: []string{NS + "T"}, Props: []Prop{{NS + "p0", []Val{VS(member)}}}},
 		}
-		if c.Kind != "in" || g.coin(0.5) {
+		if c.Kind != "in" || c.Twin || g.coin(0.5) {
 			// the second node holds every listed value (so it satisfies in, containsAll and containsSome alike)
 			var all []Val
 			seenV := map[string]bool{}
